@@ -47,6 +47,7 @@ class ItemSpec:
         self.name = None
         self.ret = None
         self.substs = []
+        self.spans = []
         self.rules = []
         self.splices = []  # (kind, arg, nth, text_lines)
         self.prefix = ""
@@ -164,6 +165,12 @@ class Unit:
                 m = _bt.search(rest)
                 cur.region = cur.region or {}
                 cur.region["epilogue"] = m.group(1)
+            elif word == "replace-span":
+                ms = list(_bt.finditer(rest))
+                if len(ms) < 3:
+                    raise UnitError("%s:%d: replace-span needs `from` `to` `replacement`" % (self.path, ln))
+                why = rest[ms[2].end():].strip().lstrip(":").strip()
+                cur.spans.append((ms[0].group(1), ms[1].group(1), ms[2].group(1), why))
             elif word in ("subst", "optsubst"):
                 a, b, why = self._parse_subst(rest, ln)
                 cur.substs.append((a, b, why, word == "subst"))
@@ -240,6 +247,8 @@ class Unit:
                 text = fn(text, log)
             for a, b, why in self.gsubsts:
                 text = rw.subst(text, a, b, log, must=False)
+            for a, b, rep, why in spec.spans:
+                text = rw.replace_span(text, a, b, rep, log)
             for a, b, why, must in spec.substs:
                 text = rw.subst(text, a, b, log, must=must)
             if spec.ret and spec.kind in ("fn",):
@@ -256,7 +265,8 @@ class Unit:
             out.append(header + text + "\n// vx-end")
             info["items"].append({"id": sid_base, "kind": "fn" if spec.kind == "region" else spec.kind, "region": spec.kind == "region", "path": spec.path, "lines": [a, b], "sha256": sha, "rules": log,
                                   "has_contract": any(s[0] == "contract" for s in spec.splices), "probes": n_probe,
-                                  "substs": [{"from": x[0], "to": x[1], "why": x[2]} for x in spec.substs]})
+                                  "substs": [{"from": x[0], "to": x[1], "why": x[2]} for x in spec.substs]
+                                            + [{"from": "%s ... %s" % (x[0], x[1]), "to": x[2], "why": x[3]} for x in spec.spans]})
         return "\n".join(out) + "\n", info
 
     def _lift_region(self, fn_text, spec, log):
@@ -291,9 +301,36 @@ class Unit:
         if end < start:
             raise UnitError("region %s: end before start" % spec.name)
         body = fn_text[start:end]
+        epi = rg.get("epilogue", "")
+        if "$tail" in epi:
+            # the region ends in a tail expression (e.g. a closure's value): it is cut off mechanically and placed where the
+            # epilogue says `$tail`
+            bst = sig(lex(body))
+            k = len(bst) - 1
+            depth = 0
+            cut = None
+            while k >= 0:
+                t = bst[k]
+                if t.kind == "punct" and t.text in ")]}":
+                    depth += 1
+                elif t.kind == "punct" and t.text in "([{":
+                    depth -= 1
+                elif t.text == ";" and depth == 0:
+                    cut = t.end
+                    break
+                k -= 1
+            if cut is None:
+                cut = 0
+            tail = body[cut:].strip()
+            if not tail:
+                raise UnitError("region %s: no tail expression for $tail" % spec.name)
+            body = body[:cut]
+            rg = dict(rg)
+            rg["epilogue"] = epi.replace("$tail", tail)
+            spec.region["name"] = spec.region.get("name", "region")
         log["R8 region-lift"] = 1
         m = re.search(r"fn\s+([A-Za-z_0-9]+)", rg["sig"])
-        rg["name"] = m.group(1) if m else "region"
+        spec.region["name"] = m.group(1) if m else "region"
         return "%s {\n%s\n%s\n}" % (rg["sig"], body, rg.get("epilogue", ""))
 
     def _splice_fn(self, text, spec, sid_base, info, probe):
